@@ -10,6 +10,8 @@ extern template void run_det<float> ();
 extern template void run_det<double> ();
 extern template void run_rounding<float> ();
 extern template void run_rounding<double> ();
+extern template void run_mixed<float> ();
+extern template void run_mixed<double> ();
 } // namespace c05
 
 void c05_alias_stage ();
@@ -27,6 +29,11 @@ int main (int argc, char** argv)
     c05::run_rounding<float> ();
     c05::run_rounding<double> ();
     c05_alias_stage ();
+    c05::run_mixed<float> ();
+    c05::run_mixed<double> ();
+    c05::run_intvec ();
+    vf::R ().sample ("Vec3<int> (1,1,0) * Matrix44<float> with entries 13/2, -41/2 ...: every sum that is an integer must come out as that integer");
+    vf::R ().sample ("Vec3<int64_t> entries 2^30+160-p: dot = exact 128-bit sum (products above 2^53)");
     vf::R ().sample ("Matrix44f: (2 E_00) * (-59 E_00) = -118 E_00 exactly");
     vf::R ().sample ("Vec3f (1,-2,2) * M44 with last column (1,0,-1,2): w = 1, result = exact numerators");
     vf::R ().sample ("det of 0/1 matrix [1,1,0,1; 1,0,1,1; 0,1,1,1; 1,1,1,0] = -3 exactly");
